@@ -53,6 +53,23 @@ Theorem C18_public_results_not_cached : forall f p, In (f, p) public_functions -
 Proof. exact public_results_not_cached. Qed.
 Print Assumptions C18_public_results_not_cached.
 
+(* Reused objects: every translated public method (self = parameter 0, the object as one region)
+   leaves its other arguments intact and returns nothing that is held by a module cache or that
+   is (part of) the object itself - apart from the methods named in method_exempt, each of which
+   the checker really rejects. *)
+Theorem C18_public_methods_safe : forall f p, In (f, p) public_methods -> inb f method_exempt = false ->
+  forall st st', init_ok p st -> exec (body p) st st' ->
+  (forall b, arg_buffer p st b -> (forall i, org st b = LArg i -> i <> 0) -> ver st' b = ver st b) /\
+  (forall b, In b (rets st') -> cached st' b = false /\ org st' b <> LArg 0).
+Proof. exact public_methods_safe. Qed.
+Print Assumptions C18_public_methods_safe.
+
+Theorem C18_method_exceptions_refuted :
+  forallb (fun f => match lookup public_methods f with Some p => negb (safe_method p) | None => false end)
+          method_exempt = true.
+Proof. exact method_exceptions_refuted. Qed.
+Print Assumptions C18_method_exceptions_refuted.
+
 (* Each named exception is really rejected by the checker (for the recorded
    findings this is the refutation of the clause on the generated program). *)
 Theorem C18_exceptions_refuted :
